@@ -480,6 +480,20 @@ class ResolveStream(runner.Stream):
                     return f"module with value references does not resolve: {a[:120]}"
                 if a != b:
                     return "module with references resolves differently from its literal variant: " + first_diff(b, a)
+                if quirk == "norm_after_resolve":
+                    # what the literal module says, read off its text: no constraint for 0..MAX without a marker,
+                    # a fixed size for equal bounds, else the range — each with the extensibility as written
+                    fmt = ["(oct,%s)", "(bit,%s,", "(str,utf8,%s)", "(str,ia5,%s)", "(seqof,%s,", "(setof,%s,"]
+                    lit = next(bytes.fromhex(h).decode() for h in t[3].split(",") if b"T0x0" in bytes.fromhex(h))
+                    import re
+                    for m in re.finditer(r"T(\d)x(\d) ::= [^\n]*SIZE\((\d+)\.\.(\w+)(, \.\.\.)?\)", lit):
+                        lo, hi, e = int(m.group(3)), m.group(4), 1 if m.group(5) else 0
+                        hi = G.SIZE_MAX if hi == "MAX" else int(hi)
+                        size = "any" if (lo == 0 and hi == G.SIZE_MAX and not e) else \
+                            f"(fix,{lo},{e})" if lo == hi else f"(range,{lo},{hi},{e})"
+                        want = f"(def,T{m.group(1)}x{m.group(2)},-," + fmt[int(m.group(1))] % size
+                        if want not in a:
+                            return f"T{m.group(1)}x{m.group(2)} does not resolve to the SIZE constraint of the text: expected …{want}…"
                 if quirk == "enum_item_vs_value":
                     # both variants keep `DEFAULT standby` on the ENUMERATED-typed components: they must be the items
                     for item in ("standby", "active", "boost"):
